@@ -366,6 +366,8 @@ CONT = [
     ("std_beta_5_1", "std_beta", R(5, 1), [], [], False),
     ("std_beta_half_half", "std_beta", R("1/2", "1/2"), [], [], False),
     ("std_beta_fifth_4", "std_beta", R("1/5", 4), [], [], False),
+    ("std_beta_3half_half", "std_beta", R("3/2", "1/2"), [], [], False),     # two gamma draws of shapes s + 1 and s in a row
+    ("std_beta_half_3half", "std_beta", R("1/2", "3/2"), [], [], False),
     ("beta_2_5_0_10", "beta", R(2, 5, 0, 10), [], [], False),
     ("beta_half_2_m1_1", "beta", R("1/2", 2, -1, 1), [], [], False),
     ("beta_3_3_100_101", "beta", R(3, 3, 100, 101), [], [], False),
@@ -390,6 +392,8 @@ CONT = [
     ("F_1_1", "F_dist", R(1, 1), [], [], False),
     ("F_2_30", "F_dist", R(2, 30), [], [], False),
     ("F_half_3", "F_dist", R("1/2", 3), [], [], False),
+    ("F_3_1", "F_dist", R(3, 1), [], [], False),                              # chi-squared 3 then 1: gamma shapes 3/2 and 1/2
+    ("F_1_3", "F_dist", R(1, 3), [], [], False),
     ("std_t_1", "std_t_dist", R(1), [], [], False),
     ("std_t_3", "std_t_dist", R(3), [], [], False),
     ("std_t_30", "std_t_dist", R(30), [], [], False),
